@@ -68,6 +68,26 @@ example :
     ∧ (run genCfg 3 [] ⟨.ok, .sec 1800, 0⟩ [Op.sub true]).trace.getLast? = some (.snap 0 [1, 2, 3] [1, 2, 3] true true) := by
   decide
 
+/-- **all_or_nothing_trace** (the judge's "all or nothing" clause, whole-trace form): for every number of
+    services, publisher script and sequence of caller operations, the clause monitor `aonMon` of the
+    run-time judge, run over the model's complete trace, flags nothing — every subscribe call in the history
+    ends in a snapshot satisfying `subOkPost` / `subFailPost` for exactly the requests of that call. -/
+theorem all_or_nothing_trace (n : Nat) (script : List Entry) (dflt : Entry) (ops : List Op) :
+    (aonMon n (run genCfg n script dflt ops).trace).bad = [] := by
+  rw [aonMon_trace]
+  suffices H : ∀ st, Core st → TaskOk st → AonInv n st → AonInv n (ops.foldl (step genCfg n) st) from
+    (H _ (Core.init script dflt) (by simp [TaskOk, init]) (AonInv.init n script dflt)).bad
+  induction ops with
+  | nil => intro st _ _ hi; exact hi
+  | cons op r ih =>
+    intro st h ht hi
+    have hc := step_core genCfg gen_shapes.2.1 n st op h ht
+    refine ih _ hc.1 hc.2 ?_
+    cases op with
+    | sub auto => exact aonInv_sub genCfg n auto st h hi
+    | wait d => exact aonInv_wait genCfg n d st hi
+    | unsub => exact aonInv_unsub genCfg gen_shapes.2.1 n st h ht hi
+
 /-! ### the renewal loop always yields -/
 
 /-- **loop_yields**: from the loop head the renewal loop reaches an await (a sleep or a request) or
